@@ -360,7 +360,11 @@ def feat_fresh(f):
     from ..features import FEATURES
     opts = dict(FEATURES[f][3]) if len(FEATURES[f]) > 3 else {}
     cls = getattr(DocumentTemplate, opts.pop('cls', 'HTML'))
-    return cls(FEATURES[f][1], **opts)
+    tvars = opts.pop('tvars', None)
+    t = cls(FEATURES[f][1], opts.pop('mapping', None), **opts)
+    if tvars:
+        t.var(**tvars)
+    return t
 
 
 def feat_alone(f, i):
